@@ -97,6 +97,16 @@ def make(prop: str):
     oracle = O.ORACLES[prop]
 
     def judge(scn, obs, corr, where):
+        crashed = next((o for o in obs if o.get('k') == 'loop_crashed' and o.get('from_impl')), None)
+        if crashed is not None and prop == 'C02':
+            last = (crashed.get('tb') or '').strip().splitlines()[-1:]
+            corr.violations.append(Violation(
+                f"run-never-finishes:event-loop-crashed:{crashed.get('err')}",
+                f"{crashed.get('err')} raised inside a task of nextline escaped the event loop ({last}): the run is never reported "
+                f"finished and its waiters never return [{scn.get('meta')}]",
+                {'scenario': {k: scn[k] for k in ('config', 'steps', 'meta') if k in scn}, 'found_in': where,
+                 'observed_tail': life.brief(obs)[-25:]}))
+            return
         p = O.runner_problem(obs)
         if p is not None and p.get('k') in ('runner_dead', 'runner_error'):
             corr.extra.setdefault('runner_problems', 0)
@@ -165,7 +175,9 @@ def make(prop: str):
         obs = life.run_one(scn)
         for line in life.brief(obs):
             print(line)
-        bad = oracle(scn, obs)
+        v = Corr()
+        judge(scn, obs, v, 'replay')
+        bad = [(x.signature, x.what) for x in v.violations]
         for sig, what in bad:
             print('FAILS:', sig, '|', what)
         print('replay verdict:', 'property violated' if bad else 'property holds on this scenario')
